@@ -96,6 +96,7 @@ func (s *packetManager) incomingPacket(pkt orderedRequest) {
 
 // register outgoing packets as being ready
 func (s *packetManager) readyPacket(pkt orderedResponse) {
+	simYield("pm.ready", uint64(pkt.orderID()))
 	s.responses <- pkt
 	s.working.Done()
 }
